@@ -459,7 +459,9 @@ class GroupEffectsMatrix:
             groups = term.groups
             term_slice = self.slices[name]
             term_slice_width = get_slice_width(term_slice)
-            levels_n = len(term.expr.levels) if has_levels else 1
+            # Number of columns of the effect (also right for multi-column numeric effects like bs())
+            expr_data = term.expr.data
+            levels_n = expr_data.shape[1] if expr_data.ndim == 2 else 1
             if term_slice_width != len(groups) * levels_n:  # Has extra groups
                 assert (
                     term_slice_width == (len(groups) + 1) * levels_n
